@@ -27,7 +27,10 @@ PROPS = {
         "level_text": "Theorems (Props/C01.lean) for all inputs. End to end for the streaming collector with every chunk size n and every number of documents "
                       "(streaming_collector_roundtrip): Add d0 and any documents ds of its schema - what was handed to the writer is one metric chunk per run of consecutive "
                       "documents, the pending chunk is one more run, the runs concatenated are d0 :: ds, and the reader decodes every chunk to exactly its documents with the "
-                      "non-metric leaves removed, in order. End to end for the base collector (base_collector_roundtrip): Add d0 and any documents ds of its schema to a fresh collector - "
+                      "non-metric leaves removed, in order. The same for the batch collector (batch_collector_roundtrip: Resolve returns one chunk per run), and for the two "
+                      "schema-aware constructors over any sequence of schemas (dynamic_collector_any_schemas, streaming_dynamic_collector_any_schemas: the input is any list of runs "
+                      "of documents, one schema inside a run, consecutive runs with different schema keys; a key change opens a new batch / flushes the pending chunk and loses "
+                      "nothing; every chunk decodes to exactly its documents and the chunks concatenated are all documents in order). End to end for the base collector (base_collector_roundtrip): Add d0 and any documents ds of its schema to a fresh collector - "
                       "all are accepted, Resolve yields one chunk, and decoding its payload gives exactly d0 :: ds with the non-metric leaves removed. End to end for one chunk (chunk_roundtrip): for every document d0 and every list ds of documents of d0's schema "
                       "(any tree of sub-documents and arrays, every leaf type, any values, any count), the payload getPayload writes is decoded by the reader into a chunk whose "
                       "structured documents are exactly d0 :: ds with the non-metric leaves removed, in order. Its layers, each for all inputs: varint round trip for every uint64, "
@@ -37,9 +40,9 @@ PROPS = {
                       "-> structured documents) is run against the implementation on every case.",
         "level_note": "chunk_roundtrip carries the hypotheses: reference document well-formed and below 2^31 bytes, datetimes within the nanosecond range (the property's own domain), counts "
                       "fit their 32-bit fields, and no timestamp leaf: the timestamp clause is false of the code (known finding F1, pinned by an existing unit test): its negation is "
-                      "proved (timestamp_clause_false) and the oracle classifies exactly that deviation as the known finding. Proved for the base and the streaming collector: that the collector hands exactly (head, vals head, tail.map vals) of each run to "
-                      "getPayload (better_adds, sg_run); for the batch and dynamic constructors that is C07's/C08's chunking lemmas (faithful logs, decodable chunks, one schema per "
-                      "batch) plus the correspondence run. zlib and the outer "
+                      "proved (timestamp_clause_false) and the oracle classifies exactly that deviation as the known finding. Proved for every compressing constructor: that the collector hands exactly (head, vals head, tail.map vals) of each run to "
+                      "getPayload (better_adds, sg_run, bg_run, dynamic_runs, sd_runs). The schema-aware theorems exclude two different schemas with one schema key "
+                      "(hypothesis AdjDiff; sim_schemaKey proves one schema has one key). zlib and the outer "
                       "{_id, type, data} document are exercised by the correspondence run, not proved. Trusted: zlib (external), Lean "
                       "kernel, harness.",
         "assumptions": ["inflate(deflate x) = x (compress/zlib is external)", "birch parses every document the strict validator accepts as the model's parser does"],
